@@ -412,5 +412,7 @@ func init() {
 		c04RegisterSets(c)
 		// leg Bm (c03bm.go): the Boyer-Moore tables, Scan and IsMatch (a tenth of C03's cases)
 		c03RegisterBm(c, 10)
+		// leg L (c04loops.go): the proved validator for the landmark chain and the literal after the leading loop
+		c04RegisterLoops(c, 1)
 	})
 }
